@@ -105,6 +105,14 @@ def install(repo_path=None):
     repo_path = repo_path or os.environ.get('VERIF_REPO') or '/repo'
     if repo_path not in sys.path or sys.path[0] != repo_path:
         sys.path.insert(0, repo_path)
+    # Replace the primitives in `threading` / `queue` BEFORE the package is imported: whatever
+    # the tree under test creates at import time -- a class-level `Queue()`, a module-level Lock,
+    # a default argument -- is then a simulated object too (outside a run it behaves
+    # single-threaded), instead of a real primitive on which a simulated thread would block for
+    # good while holding the baton.
+    by_id, rnd, tm = _replacements()
+    prims.patch_thread_class()
+    _patch_process_wide(tm)
     import bridge_env  # noqa
     if not bridge_env.__file__.startswith(repo_path.rstrip('/') + '/'):
         raise RuntimeError(f'bridge_env imported from {bridge_env.__file__}, not {repo_path}')
@@ -116,7 +124,6 @@ def install(repo_path=None):
             # optional modules must not break the harness; the network modules are checked below
             pass
     mods.append(bridge_env)
-    by_id, rnd, tm = _replacements()
     replaced = []
     for mod in mods:
         g = vars(mod)
@@ -130,8 +137,7 @@ def install(repo_path=None):
                 replaced.append(f'{mod.__name__}.{k}')
         if mod.__name__.startswith('bridge_env.network_bridge'):
             g['print'] = _silent_print
-    prims.patch_thread_class()
-    _patch_process_wide(tm)
+    _patch_process_wide(tm)      # again: concurrent.futures may have been imported meanwhile
     logging.disable(logging.CRITICAL)
     from bridge_env.network_bridge import server, client, socket_interface
     _installed.update(server=server, client=client, socket_interface=socket_interface,
